@@ -99,7 +99,9 @@ def handle : Drv.Handler
   -- map's keys (and, for id values, contains every value) the value of key k, rewritten, sits at key plan[k]
   | "o-dnm-rewrite", [plan, m, mode, r] => do
     let plan ← plan.nats?; let m ← m.nats?; let mode ← mode.str?
-    let applicable := plan.length == m.length && (mode != "kv" || m.all (· < plan.length))
+    -- the law (C20_dnm_rewrite) is about plans that PERMUTE the keys: every key 0..len-1 occurs exactly once in the plan
+    let applicable := plan.length == m.length && (mode != "kv" || m.all (· < plan.length)) &&
+      (List.range plan.length).all (fun k => plan.count k == 1)
     if !applicable then pure "ok" else
     match r with
     | .atom "panic" => pure "panicked-on-a-plan-that-permutes-the-keys"
